@@ -20,31 +20,38 @@ def content_stream(data, flate=False, extra=None):
     return Stream(d, raw)
 
 
-def build_pdf(objects, root, info=None, form="table", tape=None, pack=None, trailer_extra=None, eol=b"\n", order=None, flate_containers=True):
+def build_pdf(objects, root, info=None, form="table", tape=None, pack=None, trailer_extra=None, eol=b"\n", order=None, flate_containers=True, encrypt=None, gens=None):
     """Serialise {id: value} into a single-revision PDF.
 
-    form: 'table' | 'stream' (xref stream; ``pack``: ids to store in one object stream)."""
+    form: 'table' | 'stream' (xref stream; ``pack``: ids to store in one object stream).
+    encrypt: a sim.crypt.Handler - every directly stored object (and the object stream as a whole) is encrypted,
+    members of the object stream and the cross-reference stream are not.  gens: {id: generation} (direct objects)."""
     fw = FileWriter(eol=eol)
     ids = list(order) if order else sorted(objects)
+    gens = gens or {}
     trailer = {b"Size": max(objects) + 1, b"Root": Ref(root, 0)}
     if info is not None:
-        trailer[b"Info"] = Ref(info, 0)
+        trailer[b"Info"] = Ref(info, gens.get(info, 0))
     if trailer_extra:
         trailer.update(trailer_extra)
+
+    def enc(i, g, v):
+        return encrypt.encrypt_value(i, g, v) if encrypt is not None else v
+
     if form == "table":
         for i in ids:
-            fw.add_object(i, objects[i])
+            fw.add_object(i, enc(i, gens.get(i, 0), objects[i]), gen=gens.get(i, 0))
         ent = {i: fw.offsets[i] for i in objects}
         ent[0] = (None, 65535)
         fw.xref_table(ent, trailer)
     else:
-        pack = [i for i in (pack or []) if not isinstance(objects[i], Stream)]
+        pack = [i for i in (pack or []) if not isinstance(objects[i], Stream) and not gens.get(i)]
         entries = {}
         for i in ids:
             if i in pack:
                 continue
-            off = fw.add_object(i, objects[i])
-            entries[i] = ("n", off, 0)
+            off = fw.add_object(i, enc(i, gens.get(i, 0), objects[i]), gen=gens.get(i, 0))
+            entries[i] = ("n", off, gens.get(i, 0))
         nxt = max(objects) + 1
         if pack:
             d, payload = object_stream([(i, objects[i]) for i in pack])
@@ -53,7 +60,7 @@ def build_pdf(objects, root, info=None, form="table", tape=None, pack=None, trai
                 raw = zlib.compress(payload)
                 d[b"Filter"] = Name(b"FlateDecode")
             d[b"Length"] = len(raw)
-            off = fw.add_object(nxt, Stream(d, raw))
+            off = fw.add_object(nxt, enc(nxt, 0, Stream(d, raw)))
             entries[nxt] = ("n", off, 0)
             for k, i in enumerate(pack):
                 entries[i] = ("c", nxt, k)
